@@ -361,9 +361,15 @@ func NewWorld(h Header) *World {
 		}
 	}
 	if len(h.Dispatch) > 0 {
-		d := listener.NewDispatch()
+		// the first half of the sub-listeners goes to the constructor, the rest is added one by one
+		first := []ecs.Listener{}
+		nf := len(h.Dispatch) / 2
+		for _, ls := range h.Dispatch[:nf] {
+			first = append(first, x.newSub(ls))
+		}
+		d := listener.NewDispatch(first...)
 		x.disp = &d
-		for _, ls := range h.Dispatch {
+		for _, ls := range h.Dispatch[nf:] {
 			x.addSub(ls)
 		}
 		w.SetListener(x.disp)
@@ -378,8 +384,8 @@ func NewWorld(h Header) *World {
 	return x
 }
 
-// addSub adds a recording callback listener to the dispatch listener.
-func (x *World) addSub(ls LSpec) {
+// newSub makes a recording callback listener (sub-listener number len(x.subs)).
+func (x *World) newSub(ls LSpec) ecs.Listener {
 	sub := len(x.subs)
 	x.subs = append(x.subs, ls)
 	rl := &recListener{W: x, sub: sub}
@@ -389,7 +395,12 @@ func (x *World) addSub(ls LSpec) {
 	} else {
 		cb = listener.NewCallback(rl.Notify, event.Subscription(ls.S))
 	}
-	x.disp.AddListener(&cb)
+	return &cb
+}
+
+// addSub adds a recording callback listener to the dispatch listener.
+func (x *World) addSub(ls LSpec) {
+	x.disp.AddListener(x.newSub(ls))
 }
 
 func (x *World) ids(nums []int) []ecs.ID {
